@@ -756,7 +756,18 @@ impl Object {
 			item.canonicalize_with(buffer);
 		}
 
-		self.sort()
+		// RFC 8785 sorts members by the UTF-16 code units of their keys.
+		self.entries.sort_by(|a, b| {
+			a.key
+				.encode_utf16()
+				.cmp(b.key.encode_utf16())
+				.then_with(|| a.value.cmp(&b.value))
+		});
+		self.indexes.clear();
+
+		for i in 0..self.entries.len() {
+			self.indexes.insert(&self.entries, i);
+		}
 	}
 
 	/// Puts this JSON object in canonical form according to
